@@ -824,3 +824,66 @@ def model_entries(rs):
       out.append(('scc', ids, [list(w) for w in watch]))
     else: raise leanio.InfraError(f'unexpected schedule entry {e}')
   return out
+
+# ---------------------------------------------------------------------------------------------
+# replaying a recorded failing input (source text + inputs) on the real simulator
+# ---------------------------------------------------------------------------------------------
+def replay_source(ck, case):
+  """Re-run a recorded case on the real code: load case['source'], simulate case['inputs'] (signal indices refer to
+  case['signals']) under every pass group, print the traces; returns 1 if the pass groups disagree, a re-run of a block
+  changes state, or an exception occurs, else 0."""
+  import re
+  from pymtl3.datatypes import Bits
+  src = case.get('source')
+  if not src:
+    print('no source recorded in this replay'); return 1
+  m = re.search(r'class (Gen\d+_Top)\(', src.replace(' ', '')) or re.search(r'class\s+(\w+)\s*\(\s*Component', src)
+  name = re.findall(r'class\s+(\w+)\s*\(\s*Component\s*\)', src)[-1]
+  modname = f'pvreplay_{os.getpid()}'
+  path = os.path.join(ck.workdir, modname + '.py')
+  with open(path, 'w') as f: f.write(src)
+  spec = importlib.util.spec_from_file_location(modname, path)
+  mod = importlib.util.module_from_spec(spec); sys.modules[modname] = mod; spec.loader.exec_module(mod)
+  cls = getattr(mod, name)
+  sigs = case.get('signals')
+  inputs = case.get('inputs') or []
+  quiet_dump_dag()
+  from pymtl3.passes.PassGroups import DefaultPassGroup
+  from pymtl3.passes.mamba.PassGroups import HeuTopoUnrollSim, Mamba2020, UnrollSim
+  traces, bad = {}, 0
+  for flow, grp in [('default', DefaultPassGroup), ('heutopo', lambda: HeuTopoUnrollSim(print_line_trace=False)),
+                    ('mamba', lambda: Mamba2020(print_line_trace=False)), ('unroll', lambda: UnrollSim(print_line_trace=False))]:
+    try:
+      top = cls(); top.elaborate(); top.apply(grp())
+      tr = []
+      for cyc in inputs:
+        for g, v in cyc:
+          if sigs is None: continue
+          obj = top
+          parts = sigs[g].split('.')
+          for p_ in parts[:-1]: obj = getattr(obj, p_)
+          cur = getattr(obj, parts[-1])
+          if hasattr(type(cur), 'from_bits') and not isinstance(cur, Bits):
+            v = type(cur).from_bits(Bits(cur.nbits, v))
+          cur @= v
+        top.sim_eval_combinational()
+        def snap():
+          out = []
+          for sp in (sigs or []):
+            o = top
+            for p_ in sp.split('.'): o = getattr(o, p_)
+            out.append(int(o.to_bits()))
+          return out
+        a = snap()
+        for blk in [b for b in top._dag.final_upblks if b not in top.get_all_update_ff()]:
+          blk()
+          if snap() != a:
+            print(f'{flow}: re-running {blk.__name__} changed the state: {a} -> {snap()}'); bad = 1; break
+        top.sim_tick(); tr.append((a, snap()))
+      traces[flow] = tr
+      print(flow, tr)
+    except Exception as e:
+      print(flow, 'raised', type(e).__name__, str(e)[:200]); traces[flow] = ('exc', type(e).__name__); bad = 1
+  vals = list(traces.values())
+  if any(v != vals[0] for v in vals): print('pass groups disagree'); bad = 1
+  return bad
